@@ -38,7 +38,18 @@ KINDS = ["past", "first-offset", "offsets-nonincreasing", "indices-nonincreasing
 
 
 def budget(tier):
-    return {"examples": 110 if tier == "quick" else 300, "shards": 1 if tier == "quick" else 16}
+    return {"examples": 110 if tier == "quick" else 300, "shards": 1 if tier == "quick" else 16,
+            "examples2": 200 if tier == "quick" else 100}
+
+
+# second stage: "a sample, once written, never changes value" - also when a later session (a restarted writer) collides with
+# what an earlier session recorded
+SESSION_KEEP = ("finalized-file-changed", "union-read-wrong-value")
+
+
+def strategy2(tier):
+    from checks import c11
+    return c11.session_strategy(tier)
 
 
 # ------------------------------------------------------------------ generation
@@ -168,11 +179,24 @@ def histories(draw, tier, spf_cap=256):
         ops.append(op)
         m.apply(op)
     reads = draw(S.read_ranges(m, 4))
-    return {"cfg": cfg, "ops": ops, "api": api, "reads": reads}
+    # length class of the channel directory's path: 0 = short scratch path, 1 = about 300, 2 = about 600 characters
+    deep = draw(st.sampled_from([0, 0, 0, 1, 2]))
+    return {"cfg": cfg, "ops": ops, "api": api, "reads": reads, "deep": deep}
 
 
 def strategy(tier):
     return histories(tier)
+
+
+def deep_dir(top, deep):
+    """Parent directory of the channel: ordinary components, total length in the class drawn (well below PATH_MAX and
+    below the 1024-byte path buffers of the C library)."""
+    d = os.path.join(top, "a")
+    i = 0
+    while deep and len(d) < 300 * deep:
+        d = os.path.join(d, "archive_%02d_campaign_2014_site_north" % i)
+        i += 1
+    return d
 
 
 def directed_cases(tier):
@@ -245,7 +269,8 @@ def run_history(case):
     m = rfmodel.Model(cfg)
     info = {"rejected": 0, "valid": 0}
     with rfharness.scratch("c05") as top:
-        ch = os.path.join(top, "a", "ch0")
+        adir = deep_dir(top, case.get("deep", 0))
+        ch = os.path.join(adir, "ch0")
         os.makedirs(ch)
         sess = None
         w = None
@@ -355,7 +380,7 @@ def run_history(case):
         if m.runs:
             try:
                 with rfharness.quiet_fds():
-                    rd = rfharness.drf().DigitalRFReader(os.path.join(top, "a"))
+                    rd = rfharness.drf().DigitalRFReader(adir)
                 b = m.bounds()
                 for a, e in [[max(0, b[0] - 2), b[1] + 2]] + list(case.get("reads", [])):
                     f = rfharness.check_read(cfg, m, rd, "ch0", a, e)
@@ -392,12 +417,17 @@ def classify(case, res):
     for r in rej:
         res.cls("reject:" + ops[r]["expect"])
     res.cls("api:" + case["api"])
+    if case.get("deep"):
+        res.cls("long-channel-path")
     if cfg["cont"]:
         res.cls("continuous")
     return sandwiched
 
 
 def run_case(case):
+    if case.get("kind") == "sessions":
+        from checks import c11
+        return c11.run_sessions(case, SESSION_KEEP)
     res = Result()
     res.nontrivial = classify(case, res)
     f05, f19, info = run_history(case)
@@ -426,12 +456,18 @@ def relabel(case):
 
 
 def shrink_candidates(case):
+    if case.get("kind") == "sessions":
+        from checks import c11
+        yield from c11.session_shrink(case)
+        return
     ops = case["ops"]
     for i in range(len(ops) - 1, -1, -1):
         if len(ops) > 1:
             yield relabel(dict(case, ops=ops[:i] + ops[i + 1:]))
     if case.get("reads"):
         yield dict(case, reads=[])
+    if case.get("deep"):
+        yield dict(case, deep=0)
     cfg = case["cfg"]
     for key, val in (("nsub", 1), ("cplx", 0), ("comp", 0), ("checksum", 0), ("order", "<")):
         if cfg[key] != val:
